@@ -234,11 +234,11 @@ pub fn len_fields(tier: Tier) -> Vec<u16> {
         .collect()
 }
 
-pub const LEN_VARIANTS: u64 = 7;
+pub const LEN_VARIANTS: u64 = 8;
 
 /// variant 0: exactly framed; 1: exactly framed and padded (P, last byte 4); 2 and 3: the real length is that of
 /// the length field with one bit flipped (a lost or invented carry); 4, 5: one word longer / shorter; 6: exactly
-/// framed, P set, final byte 0
+/// framed, P set, final byte 0; 7: the exact length plus 65536 words
 pub fn len_case(lfs: &[u16], i: u64) -> LenCase {
     let lf = lfs[(i / LEN_VARIANTS) as usize % lfs.len()];
     let v = i % LEN_VARIANTS;
@@ -251,6 +251,8 @@ pub fn len_case(lfs: &[u16], i: u64) -> LenCase {
         3 => (4 * ((lf ^ (1 << ((lf / 16) % 16))) as u32 + 1), false, 0),
         4 => (4 * (words + 1), false, 0),
         5 => (4 * (words - 1), false, 0),
+        // longer than any RTCP packet by exactly 2^16 words: the word count aliases the length field in 16 bits
+        7 => (4 * words + 262_144, false, 0),
         _ => (4 * words, true, 0),
     };
     LenCase { pt, count: 0, p, lf, len, last }
@@ -264,6 +266,25 @@ pub(crate) fn c08_len_oracle(c: &LenCase, st: &mut Stats) -> Verdict {
 pub(crate) fn c18_len_oracle(c: &LenCase, st: &mut Stats) -> Verdict {
     st.label(if c.exact() { "exactly framed" } else { "length field and real length differ" });
     c18_oracle(&c.bytes(), st)
+}
+
+/// a small selection for oracles that are expensive on 256 KiB inputs (C01 renders every value with
+/// Debug): 0..=40, the powers of two and their neighbours, the top of the range
+pub fn len_fields_small() -> Vec<u16> {
+    let mut v: Vec<u32> = (0..=40).collect();
+    for k in 6..16 {
+        v.extend_from_slice(&[(1 << k) - 1, 1 << k, (1 << k) + 1]);
+    }
+    v.extend_from_slice(&[0x01ff, 0x3fff, 0x4000, 0xfffe, 0xffff]);
+    v.sort();
+    v.dedup();
+    v.into_iter().map(|x| x as u16).collect()
+}
+
+pub fn len_leg_small(oracle: Oracle<LenCase>) -> Box<dyn Leg> {
+    let lfs = std::sync::Arc::new(len_fields_small());
+    let n = lfs.len() as u64 * LEN_VARIANTS;
+    Box::new(SweepLeg { name: "every-length-field", n, at: Box::new(move |i| len_case(&lfs, i)), oracle, exhaustive: false })
 }
 
 pub fn len_leg(tier: Tier, oracle: Oracle<LenCase>) -> Box<dyn Leg> {
